@@ -50,13 +50,54 @@ MAX_ROWS = 170          # per kernel and chain (enginekit.CAP = 192)
 # ------------------------------------------------------------------------------------------------
 # case descriptions
 # ------------------------------------------------------------------------------------------------
-def appended(ops):
-    return [tuple(o[1]) for o in ops if o[0] == "append"]
+def reject_reason(sched, c):
+    """None if appending config c to the (valid) schedule `sched` keeps it valid - the validity predicate of the
+    property text -, otherwise the reason for which EpochManager must reject it"""
+    ty, d, th = c
+    if not sched:
+        return None if (ty == INIT and d == 1 and th == 1) else "first epoch must be the initial-values epoch (duration 1)"
+    if ty == INIT:
+        return "second initial-values epoch"
+    if ty != POST and sched[-1][0] == POST:
+        return "warm-up epoch after a posterior epoch"
+    if d < 1:
+        return "duration < 1"
+    if th < 1:
+        return "thinning < 1"
+    if th > d:
+        return "thinning > duration"
+    if ty == POST and d % th:
+        return "thinning does not divide the posterior duration"
+    return None
+
+
+def resolve(init, ops):
+    """-> (appended configs that are part of the schedule, [(config, reason)] of the rejected guarded appends,
+    expected outcome [raised?] of every ("try", cfg) operation).  ("append", cfg) is always part of the schedule."""
+    sched = [tuple(c) for c in init]
+    app, rej, want = [], [], []
+    for o in ops:
+        if o[0] == "append":
+            app.append(tuple(o[1]))
+            sched.append(tuple(o[1]))
+        elif o[0] == "try":
+            why = reject_reason(sched, tuple(o[1]))
+            want.append(why is not None)
+            if why is None:
+                app.append(tuple(o[1]))
+                sched.append(tuple(o[1]))
+            else:
+                rej.append((tuple(o[1]), why))
+    return app, rej, want
+
+
+def appended(ops, init=((INIT, 1, 1),)):
+    return resolve(init, ops)[0]
 
 
 def full_schedule(case):
-    """init + appended + sentinel (the sentinel is part of the case)"""
-    return [tuple(c) for c in case["init"]] + appended(case["ops"]) + [tuple(case["sentinel"])]
+    """init + accepted appends + sentinel (the sentinel is part of the case)"""
+    return [tuple(c) for c in case["init"]] + appended(case["ops"], case["init"]) + [tuple(case["sentinel"])]
 
 
 def all_ops(case):
@@ -65,10 +106,10 @@ def all_ops(case):
 
 def mk_case(init, ops, chunk, needs, chains, seed, via="engine", stratum="", group=None, variant=None,
             sentinel_post=False):
-    sched = [tuple(c) for c in init] + appended(ops)
+    sched = [tuple(c) for c in init] + appended(ops, init)
     last = sched[-1][0]
     sent = (POST if (last == POST or sentinel_post) else BURNIN, int(chunk), 1)
-    return {"init": [list(c) for c in init], "ops": [[o[0]] + ([list(o[1])] if o[0] == "append" else []) for o in ops],
+    return {"init": [list(c) for c in init], "ops": [[o[0]] + ([list(o[1])] if o[0] in ("append", "try") else []) for o in ops],
             "chunk": int(chunk), "needs": [bool(b) for b in needs], "chains": int(chains), "seed": int(seed),
             "via": via, "stratum": stratum, "group": group, "variant": variant, "sentinel": list(sent)}
 
@@ -86,12 +127,44 @@ def one_at_a_time_ops(sched):
     return [sched[0]], ops
 
 
-def random_ops(rnd, sched):
-    """a random admissible interleaving: never samples without a pending epoch, ends with all sampled"""
+def bad_config(rnd, sofar, chunk):
+    """a config that EpochManager must reject when appended to the schedule `sofar` (durations are multiples of the
+    chunk where possible, so that a wrongly retained config would be sampled rather than crash)"""
+    d = chunk * rnd.choice([1, 2, 3])
+    after_post = sofar[-1][0] == POST
+    ty = POST if after_post else rnd.choice([FAST, SLOW, BURNIN, POST])
+    kinds = ["thin_gt_dur", "second_init", "dur0", "thin0", "post_nondividing"] + (["warmup_after_post"] * 2 if after_post else [])
+    k = rnd.choice(kinds)
+    if k == "thin_gt_dur":
+        return (ty, d, d + rnd.choice([1, 2]))
+    if k == "second_init":
+        return (INIT, 1, 1)
+    if k == "dur0":
+        return (ty, 0, 1)
+    if k == "thin0":
+        return (ty, d, 0)
+    if k == "post_nondividing":
+        dd = max(d, 3) if max(d, 3) % chunk == 0 else chunk * 3
+        th = next(t for t in (2, 3, 4, 5, 7) if t < dd and dd % t)
+        return (POST, dd, th)
+    return (rnd.choice([FAST, SLOW, BURNIN]), d, 1)
+
+
+def random_ops(rnd, sched, chunk=None, p_try=0.0):
+    """a random admissible interleaving: never samples without a pending epoch, ends with all sampled.
+    With p_try > 0: guarded appends ("try") of configs that must be rejected are injected at random points
+    (the caller catches the RuntimeError and goes on), and some valid appends are made guarded too."""
     n_init = rnd.randint(1, len(sched))
     init, rest = list(sched[:n_init]), list(sched[n_init:])
+    sofar = list(init)
     pending, ops = n_init, []
+
+    def maybe_try():
+        while chunk and rnd.random() < p_try:
+            ops.append(("try", bad_config(rnd, sofar, chunk)))
+
     while rest or pending:
+        maybe_try()
         choices = []
         if rest:
             choices += ["append", "append"]
@@ -101,7 +174,9 @@ def random_ops(rnd, sched):
             break
         ch = rnd.choice(choices)
         if ch == "append":
-            ops.append(("append", rest.pop(0)))
+            c = rest.pop(0)
+            ops.append(("try" if (p_try and rnd.random() < 0.3) else "append", c))
+            sofar.append(c)
             pending += 1
         elif ch == "next":
             ops.append(("next",))
@@ -109,6 +184,7 @@ def random_ops(rnd, sched):
         else:
             ops.append(("all",))
             pending = 0
+    maybe_try()
     if rnd.random() < 0.3:
         ops.append(("all",))          # sample_all_epochs with nothing pending is a no-op
     return init, ops
@@ -181,10 +257,17 @@ def tags(case):
         t.add("no_kernel_needs_history")
     if BURNIN in tys:
         t.add("has_burnin_epoch")
+    app, rej, _ = resolve(case["init"], case["ops"])
+    for _, why in rej:
+        t.add("rejected append: " + why)
+    if rej:
+        t.add("rejected_append_then_continued_use")
+    if any(o[0] == "try" for o in case["ops"]) and len(rej) < sum(1 for o in case["ops"] if o[0] == "try"):
+        t.add("guarded_append_accepted")
     kinds = [o[0] for o in case["ops"]]
     if kinds == ["all"] and len(case["init"]) == len(sched):
         t.add("driver_all_at_once")
-    elif "append" in kinds and "all" not in kinds:
+    elif ("append" in kinds or "try" in kinds) and "all" not in kinds:
         t.add("driver_one_epoch_at_a_time")
     else:
         t.add("driver_interleaved")
@@ -231,6 +314,15 @@ def fixed_cases():
     add([I, (SLOW, 4, 3), (FAST, 8, 3), (POST, 8, 4)], 4, [True], 1, "batch", "thinning not dividing the duration", 19)
     # three posterior epochs, three chunks each
     add([I, (SLOW, 3, 1), (POST, 3, 1), (POST, 6, 2), (POST, 9, 3)], 3, [False, False, True], 2, "batch", "three posterior epochs", 20)
+    # fault followed by continued use: append_epoch raises, the caller catches the error, appends a valid epoch and
+    # samples.  Every rejection reason; the rejected durations are multiples of the chunk.
+    g1 = [("next",), ("try", (FAST, 2, 3)), ("append", (FAST, 2, 2)), ("next",), ("try", (INIT, 1, 1)),
+          ("try", (FAST, 0, 1)), ("try", (POST, 4, 2)), ("try", (POST, 4, 3)), ("next",), ("try", (BURNIN, 2, 1)),
+          ("append", (POST, 2, 1)), ("all",)]
+    add(None, 2, [True], 1, ([I], g1), "rejected appends of every kind, then continued use (chunk 2)", 22)
+    g2 = [("try", (SLOW, 2, 0)), ("all",), ("try", (POST, 3, 2)), ("append", (POST, 3, 3)), ("try", (FAST, 1, 1)),
+          ("try", (POST, 1, 2)), ("next",), ("try", (POST, 2, 2)), ("try", (INIT, 1, 1)), ("try", (SLOW, 0, 1)), ("all",)]
+    add(None, 1, [False, True], 2, ([I, (SLOW, 3, 1)], g2), "rejected appends of every kind, then continued use (chunk 1)", 23)
     # the builder's own choice of the chunk (gcd of the durations)
     add([I, (FAST, 4, 1), (BURNIN, 6, 2), (POST, 8, 2)], 2, [False, True], 2, "batch", "EngineBuilder.build()", 21, via="builder")
     return out
@@ -240,10 +332,10 @@ def group_cases(rnd, gid, sched, chunk, other_chunk, needs, chains, seed):
     """the same run (same seed) driven three ways: A batch, B incremental (same chunk: the full logs,
     keys included, must be identical), C another chunk (the calls must be identical)"""
     ia, oa = batch_ops(sched)
-    ib, ob = one_at_a_time_ops(sched) if rnd.random() < 0.5 else random_ops(rnd, sched)
+    ib, ob = one_at_a_time_ops(sched) if rnd.random() < 0.3 else random_ops(rnd, sched, chunk, 0.35)
     if (ib, ob) == (ia, oa):
         ib, ob = one_at_a_time_ops(sched)
-    ic, oc = random_ops(rnd, sched)
+    ic, oc = random_ops(rnd, sched, other_chunk, 0.2)
     return [mk_case(ia, oa, chunk, needs, chains, seed, "engine", "group: batch", gid, "A"),
             mk_case(ib, ob, chunk, needs, chains, seed, "engine", "group: incremental, same chunk", gid, "B"),
             mk_case(ic, oc, other_chunk, needs, chains, seed, "engine", "group: other chunk", gid, "C")]
@@ -291,7 +383,7 @@ def generate_specs(ctx, rnd):
         elif drv == "single":
             init, ops = one_at_a_time_ops(sched)
         else:
-            init, ops = random_ops(rnd, sched)
+            init, ops = random_ops(rnd, sched, chunk, rnd.choice([0.0, 0.3, 0.5]))
         via = "engine"
         if drv == "batch" and len(sched) > 1 and math.gcd(*[c[1] for c in sched[1:]]) == chunk and rnd.random() < 0.5:
             via = "builder"
@@ -315,7 +407,7 @@ def exhaustive_small(rnd):
             durs_list = list(itertools.product([1, 2], repeat=n)) if n < 3 else [tuple(rnd.choice([1, 2]) for _ in range(n))]
             for durs in durs_list:
                 sched = [(INIT, 1, 1)] + [(t, d, 1) for t, d in zip(tys, durs)]
-                init, ops = random_ops(rnd, sched)
+                init, ops = random_ops(rnd, sched, 1, rnd.choice([0.0, 0.0, 0.4]))
                 out.append(mk_case(init, ops, 1, [rnd.random() < 0.5], 1, rnd.randint(1, 10 ** 6), "engine",
                                    f"exhaustive small schedules (length {n})"))
     return out
@@ -331,13 +423,13 @@ def run_case(case):
         eng, roots = ek.build_engine([tuple(c) for c in case["init"]], case["chains"], case["needs"],
                                      chunk=None if case["via"] == "builder" else case["chunk"],
                                      seed=case["seed"], via=case["via"])
-        ek.drive(eng, [(o[0], tuple(o[1])) if o[0] == "append" else (o[0],) for o in case["ops"]])
+        raised = ek.drive(eng, [(o[0], tuple(o[1])) if o[0] in ("append", "try") else (o[0],) for o in case["ops"]])
         if not eng.is_sampling_done():
             return {"raised": "is_sampling_done() is False after an operation sequence that sampled every epoch"}
         logs = ek.read_logs(eng, sched[:-1], case["chunk"], cut_sentinel=False, sentinel=tuple(case["sentinel"]))
     except Exception as ex:
         return {"raised": f"{type(ex).__name__}: {ex}"}
-    return {"logs": logs, "roots": roots}
+    return {"logs": logs, "roots": roots, "try_raised": raised}
 
 
 def row16(r):
@@ -459,6 +551,12 @@ def oracle(case, obs):
     """-> None | why (str)"""
     if "raised" in obs:
         return f"the engine raised on a valid configuration: {obs['raised']}"
+    app, rej, want = resolve(case["init"], case["ops"])
+    tries = [tuple(o[1]) for o in case["ops"] if o[0] == "try"]
+    for c, w, got in zip(tries, want, obs.get("try_raised", want)):
+        if w != got:
+            return (f"append_epoch {'accepted' if w else 'rejected'} the {'in' if w else ''}valid config "
+                    f"({ETY[c[0]]}, duration {c[1]}, thinning {c[2]})")
     logs = obs["logs"]
     if len(logs) != case["chains"] or any(len(l) != len(case["needs"]) for l in logs):
         return "kernel states missing for some chain / kernel"
@@ -466,6 +564,10 @@ def oracle(case, obs):
         for k, rows in enumerate(per_kernel):
             r = oracle_log(case, rows, k)
             if r:
+                if rej:
+                    r += ("  [the schedule consists of the accepted configs only; append_epoch rejected "
+                          + ", ".join(f"({ETY[x[0]]}, duration {x[1]}, thinning {x[2]}: {why})" for x, why in rej)
+                          + " and a rejected config must not be sampled]")
                 return f"chain {c}, kernel {k}: {r}"
             if any(x[ek.C_CID] != c for x in rows):
                 return f"chain {c}, kernel {k}: a call was made with another chain's model state"
@@ -507,6 +609,8 @@ def econf_lit(c):
 def op_lit(o):
     if o[0] == "append":
         return f"AppendEpoch {econf_lit(o[1])}"
+    if o[0] == "try":
+        return f"TryAppend {econf_lit(o[1])}"
     return "SampleNext" if o[0] == "next" else "SampleAll"
 
 
@@ -633,6 +737,17 @@ def shrink(case, why_kind, budget=6):
     if case["chains"] > 1 or len(case["needs"]) > 1:
         c = dict(case, chains=1, needs=case["needs"][:1])
         cands.append(c)
+    # fault followed by continued use: the smallest pattern around each rejected config
+    for bad, _why in resolve(case["init"], case["ops"])[1]:
+        if bad[1] < 1 or bad[1] % case["chunk"]:
+            continue
+        pre = [(INIT, 1, 1)] + ([(POST, case["chunk"], 1)] if (bad[0] not in (POST, INIT) and _why.startswith("warm-up")) else [])
+        good = (POST if (bad[0] == POST or len(pre) > 1) else FAST, bad[1], 1)
+        c = mk_case(pre, [("try", bad), ("append", good), ("all",)], case["chunk"], case["needs"][:1], 1, case["seed"],
+                    "engine", "shrunk")
+        cands.insert(0, c)
+    if any(o[0] == "try" for o in case["ops"]):
+        budget += 4
     for drop in range(len(sched) - 1, 0, -1):
         s2 = sched[:drop] + sched[drop + 1:]
         if len(s2) < 2:
